@@ -31,6 +31,9 @@ from typing import Any, Callable
 from core.loader import ClassInfo, FuncInfo, ModuleInfo, Repo
 
 
+_MISSING_KEY = object()
+
+
 class Unsupported(Exception):
     """The executor cannot interpret a construct (reported as *undecided*, never as a verdict)."""
 
@@ -116,6 +119,8 @@ def show(t: Any) -> str:
         return f"<{t.ci.name} object>"
     if isinstance(t, ANode):
         return f"<ast.{t.cls}>"
+    if isinstance(t, Seq):
+        return "[" + ", ".join(show(p[1]) if p[0] == "item" else "*" + show(p[2]) for p in t.parts) + "]"
     if isinstance(t, (list, tuple)):
         o, c = ("[", "]") if isinstance(t, list) else ("(", ")")
         return o + ", ".join(show(x) for x in t) + c
@@ -185,6 +190,23 @@ class ExtObj:
     type: str
     name: str
     version: int = 0
+
+
+@dataclass(eq=False)
+class Seq:
+    """Partially known sequence: known items interleaved with repeated segments of unknown length.
+
+    parts: ("item", value) | ("rep", [values of one repetition], source term, site)
+    """
+
+    parts: list
+
+    @property
+    def concrete(self) -> bool:
+        return all(p[0] == "item" for p in self.parts)
+
+    def items(self) -> list:
+        return [p[1] for p in self.parts if p[0] == "item"]
 
 
 @dataclass(eq=False)
@@ -293,6 +315,7 @@ class Effect:
     path: dict  # snapshot of the decisions at that point
     version: int = 0
     where: str = ""
+    n_decisions: int = 0  # number of decisions the run had taken when the effect happened
 
 
 @dataclass
@@ -336,8 +359,10 @@ def is_immutable(v: Any) -> bool:
 class Explorer:
     """Enumerates the paths of one entry call."""
 
-    def __init__(self, repo: Repo, opaque: set[str] | None = None, stop: set[str] | None = None, max_runs: int = 4000, max_steps: int = 200000) -> None:
+    def __init__(self, repo: Repo, opaque: set[str] | None = None, stop: set[str] | None = None, max_runs: int = 4000, max_steps: int = 200000, split_calls: bool = False) -> None:
         self.repo = repo
+        self.split_calls = split_calls  # explore statement-level calls that only touch abstract objects separately (paths add up instead of multiplying)
+        self.effect_only: dict[str, bool] = {}
         self.opaque = opaque or set()
         self.stop = stop or set()
         self.max_runs = max_runs
@@ -415,6 +440,12 @@ class InterpBase:
                     return True
         return None
 
+    def structural_decision(self, kind: str, site: str) -> bool:
+        """Decision that is not about a condition of the program: explore the body of a loop / a call separately (True) or skip it."""
+        v = self._next_decision()
+        self.trace.append((App(kind, (site,)), v))
+        return v
+
     def decide(self, atom: App) -> bool:
         v = self.forced(atom)
         if v is None:
@@ -459,6 +490,10 @@ class InterpBase:
             return self.decide(App(f"nonempty@{v.version}", (v.name,)))
         if isinstance(v, ExtView):
             return self.decide(App(f"nonempty@{v.obj.version}", (v.obj.name, v.kind, _h(v.key))))
+        if isinstance(v, Seq):
+            if v.items():
+                return True
+            return self.decide(App("truthy", (_h(v),)))
         raise Unsupported(f"truth value of {type(v).__name__}")
 
     def is_none(self, v: Any) -> bool:
@@ -522,7 +557,14 @@ class InterpBase:
                     return True
             return False
         if isinstance(container, dict):
-            return self.contains(list(container.keys()), x)
+            return self.dict_key(container, x if not isinstance(x, list) else tuple(x)) is not _MISSING_KEY
+        if isinstance(container, Seq):
+            for i in container.items():
+                if i is x or (isinstance(i, Term) and i == x):
+                    return True
+            if container.concrete:
+                return self.contains(container.items(), x)
+            return self.decide(App("in", (_h(x), _h(container))))
         if isinstance(container, str):
             if isinstance(x, str):
                 return x in container
@@ -615,6 +657,8 @@ def _h(v: Any) -> Any:
         return ("set", tuple(sorted((_h(x) for x in v), key=show)))
     if isinstance(v, dict):
         return ("dict", tuple((_h(k), _h(x)) for k, x in v.items()))
+    if isinstance(v, Seq):
+        return ("seq", tuple(("item", _h(p[1])) if p[0] == "item" else ("rep", tuple(_h(x) for x in p[1]), _h(p[2])) for p in v.parts))
     if isinstance(v, ExtObj):
         return v.name
     if isinstance(v, ExtView):
